@@ -16,7 +16,7 @@ Install(st) ==
   /\ migTo' = st.migTo /\ migFrom' = st.migFrom /\ props' = st.props /\ now' = st.now
   /\ vtok' = st.vtok /\ bonded' = st.bonded /\ unbonding' = st.unbonding /\ govBal' = st.govBal
   /\ idxBad' = st.idxBad /\ qBad' = st.qBad /\ leftover' = st.leftover /\ inv' = st.inv
-  /\ UNCHANGED <<nstake, npass, ngov>>
+  /\ UNCHANGED <<nstake, npass, ngov, ntick, nbegin>>
 
 PInit == Init /\ l = 1
 PNext == /\ l <= Len(Trace) /\ l' = l + 1
@@ -30,6 +30,7 @@ P_C14_NeedsTargetSignature       == [][R(A_C14_NeedsTargetSignature)]_<<vars, l>
 P_C14_NoOperatorNoStakedTarget   == [][R(A_C14_NoOperatorNoStakedTarget)]_<<vars, l>>
 P_C14_RefusedWhileInOpenProposal == [][R(A_C14_RefusedWhileInOpenProposal)]_<<vars, l>>
 P_C14_TargetActsAsSource         == [][R(A_C14_TargetActsAsSource)]_<<vars, l>>
+P_C14_MaturedFundsArrive         == [][R(A_C14_MaturedFundsArrive)]_<<vars, l>>
 
 Consumed == TLCGet("stats").diameter - 1 = Len(Trace)
 =============================================================================
